@@ -467,11 +467,12 @@ SVC_MODEL = {'tms': 'TMS', 'wmts': 'WMTS', 'wmtskvp': 'WMTS', 'kml': 'KML', 'wms
 
 
 class App:
-    def __init__(self, ctx, cache_type, meta, hours):
+    def __init__(self, ctx, cache_type, meta, hours, link=None):
         import yaml
         from mapproxy.wsgiapp import make_wsgi_app
         from webtest import TestApp
-        self.cache_type, self.meta, self.max_age = cache_type, meta, hours * 3600
+        self.cache_type, self.meta, self.max_age, self.link = cache_type, meta, hours * 3600, link
+        cache_conf = {'type': cache_type}
         base = ctx.tmpdir('app')
         self.base = base
         conf = {'globals': {'cache': {'base_dir': base + '/c', 'lock_dir': base + '/l', 'tile_lock_dir': base + '/t',
@@ -479,9 +480,11 @@ class App:
                             'tiles': {'expires_hours': hours}},
                 'services': {'wms': {}, 'tms': {}, 'wmts': {'restful': True, 'kvp': True}, 'kml': {}},
                 'layers': [{'name': 'lyr', 'title': 'l', 'sources': ['c1']}],
-                'caches': {'c1': {'grids': ['GLOBAL_MERCATOR'], 'sources': ['up'], 'cache': {'type': cache_type}}},
+                'caches': {'c1': {'grids': ['GLOBAL_MERCATOR'], 'sources': ['up'], 'cache': cache_conf}},
                 'sources': {'up': {'type': 'wms', 'req': {'url': 'http://up.invalid/s', 'layers': 'a'},
                                    'on_error': {500: {'response': '#ff0000', 'cache': False}}}}}
+        if link:
+            conf['caches']['c1']['link_single_color_images'] = True if link == 'symlink' else link
         with open(base + '/m.yaml', 'w') as f:
             yaml.safe_dump(conf, f)
         self.wsgi = make_wsgi_app(base + '/m.yaml')
@@ -505,6 +508,18 @@ class App:
         bb = self.grid.tile_bbox((x, y, z))
         return ('/service?service=WMS&request=GetMap&version=1.1.1&layers=lyr&styles=&srs=EPSG:900913&format=image/png'
                 '&width=256&height=256&tiled=true&bbox=%r,%r,%r,%r' % bb)
+
+    def color_file(self, color):
+        return self.tm.cache._single_color_tile_location(tuple(color))
+
+    def store_via_cache(self, key, color):
+        """store a uniform tile through the real FileCache.store_tile (what seeding / a refresh does)"""
+        from PIL import Image
+        from mapproxy.cache.tile import Tile
+        from mapproxy.image import ImageSource
+        img = Image.new('RGB', (256, 256), tuple(color))
+        tile = Tile((key % NK, key // NK, LEVEL), ImageSource(img, image_opts=self.tm.image_opts))
+        self.tm.cache.store_tile(tile)
 
     # ---- direct access to the backend (what another process / seeding would do)
     def _file(self, key):
@@ -599,6 +614,8 @@ class History:
         self.seen = {}                                   # key -> (etag, lastmod, body) of the current stored version
         self.validators = {k: [] for k in self.keys}     # validators handed out for k (any version)
         self.issued = {}                                 # (key, etag) -> (mtime, size) of the version it was issued for
+        self.copies = {k: [] for k in self.keys}         # (Last-modified text, body) of 200 answers a client may hold
+        self.by_cache = {}                               # key -> True when the current version was written by mapproxy itself
         self.terms, self.descr = [], []
         self.log = []
 
@@ -629,11 +646,32 @@ class History:
         after = self.observe_all()
         self.store = after
         self.seen.pop(key, None)
+        self.by_cache[key] = False
         step = {'event': 'rewrite', 'key': key, 'size': len(data), 'mtime': repr(mtime),
                 'stored': None if after[key] is None else [repr(after[key][0]), after[key][1]]}
         self.log.append(step)
         if after[key] is None:
             self.ctx.problem('harness', 'rewrite did not store the tile', step)
+            return
+        self.emit(before, 'Rewrite %d %s' % (key, self.entry_lit(after[key])), [], 'None', after, step)
+
+    def do_store(self, key, color):
+        """the tile is written again by the cache backend itself (FileCache.store_tile)"""
+        before = dict(self.store)
+        try:
+            self.app.store_via_cache(key, color)
+        except Exception as e:  # noqa
+            self.ctx.problem('harness', 'store_tile raised %r' % (e,), {'key': key, 'color': list(color)})
+            return
+        after = self.observe_all()
+        self.store = after
+        self.seen.pop(key, None)
+        self.by_cache[key] = True
+        step = {'event': 'store_tile', 'key': key, 'color': list(color), 'link': self.app.link,
+                'stored': None if after[key] is None else [repr(after[key][0]), after[key][1]]}
+        self.log.append(step)
+        if after[key] is None:
+            self.ctx.problem('harness', 'store_tile did not store the tile', step)
             return
         self.emit(before, 'Rewrite %d %s' % (key, self.entry_lit(after[key])), [], 'None', after, step)
 
@@ -670,6 +708,8 @@ class History:
         if ims is not None:
             headers['If-Modified-Since'] = ims
         calls0 = self.up.calls
+        linked_existing = bool(self.app.link and mode == 'ok' and pre is None
+                               and os.path.exists(self.app.color_file(self.up.color)))
         try:
             r = self.app.app.get(self.app.url(svc, key), headers=headers, expect_errors=True)
             status, hl, body = r.status_int, [(k, v) for k, v in r.headerlist], r.body
@@ -741,6 +781,18 @@ class History:
                               % (inm, old[0], old[1], ts, size, str(ts) + str(size)), step)
                 if status in (200, 304) and etag is not None:
                     self.issued.setdefault((key, etag), (ts, size))
+                if (status == 200 and inm != cur_etag and ims_class == 'date' and ims_t is not None and ts and ts <= ims_t):
+                    self.fail(where + 'ims-covers-not-304',
+                              'If-Modified-Since %r (epoch %d) is not before the tile mtime %r, yet the answer is 200' % (ims, ims_t, ts), step)
+                if status == 304 and inm != cur_etag and ims is not None and self.by_cache.get(key):
+                    held = [c for c in self.copies[key] if c[0] == ims and c[1] != data]
+                    if held:
+                        self.fail('store-timestamp-backwards-304',
+                                  'the client holds an earlier version of this tile (Last-modified %r, other bytes); the cache backend '
+                                  'itself has stored the tile again since, yet If-Modified-Since with that date is answered 304 '
+                                  '(current mtime %r, link mode %r)' % (ims, ts, self.app.link), step)
+                if status == 200 and lastmod is not None:
+                    self.copies[key].append((lastmod, body))
                 if ims_class in ('bad', 'oor') and status == 304 and inm != cur_etag:
                     self.fail(where + 'malformed-date-not-ignored', 'malformed If-Modified-Since %r produced 304' % (ims,), step)
                 if after[key] != pre:
@@ -764,15 +816,23 @@ class History:
                 if status >= 400:
                     self.fail('ims-date-out-of-range-500' if ims_class == 'oor' else where + 'fresh-tile-error',
                               'fresh tile answered %d (If-Modified-Since %r)' % (status, ims), step)
-                if status == 304 and after[key] is not None:
-                    size = after[key][1]
+                if after[key] is not None and after[key] != pre:
+                    self.by_cache[key] = True
+                if status == 304 and after[key] is not None and linked_existing:
+                    # tile linked to an existing single-colour file: tile_buffer did not run, the answer carries the
+                    # validators of (None, None): constant ETag md5("NoneNone"), no Last-modified
+                    self.fail('linked-fresh-tile-constant-etag-304',
+                              'a tile created by this request (linked to an existing single colour file) is answered 304 to '
+                              'If-None-Match %r = md5("NoneNone"), the constant ETag every such creating answer carries' % (inm,), step)
+                elif status == 304 and after[key] is not None:
+                    size = len(after[key][2])
                     fresh_etag = md5hex(str(float(now)) + str(size))
                     ok = inm == fresh_etag or (ims_class == 'date' and ims_t is not None and now <= ims_t)
                     if not ok and ims_class != 'quirk':
                         self.fail(where + 'unsound-304', '304 for a tile created by this request without matching validator', step)
                 if status == 200 and after[key] is None:
                     ctx.problem('harness', 'tile requested with a working upstream was not stored (url mapping?)', step)
-                if status == 200 and after[key] is not None and after[key][2] != body:
+                if status == 200 and after[key] is not None and after[key][2] != body and not linked_existing:
                     self.fail(where + 'fresh-body-differs', 'body of the creating answer differs from the stored tile', step)
         if status in (200, 304) and etag is not None:
             self.validators[key].append((etag, lastmod))
@@ -787,16 +847,17 @@ class History:
                 # any other change stays unexplained -> the stores disagree -> correspondence problem
         if pre is None and mode == 'ok' and after[key] is not None:
             ts2, size2, data2 = after[key]
-            self.tab.add(str(float(now)) + str(size2))
+            self.tab.add(str(float(now)) + str(len(data2)))
             try:
-                up_l = '(UOk %s %s %s %s)' % (zlit(self.body_id(data2)), zlit(size2), stamp_lit(float(now)), stamp_lit(ts2))
+                buffered = 'None' if linked_existing else '(Some (%s, %s))' % (stamp_lit(float(now)), zlit(len(data2)))
+                up_l = '(UOk %s %s %s)' % (zlit(self.body_id(body if status == 200 else data2)), buffered, self.entry_lit(after[key]))
             except ValueError as e:
                 ctx.problem('harness', 'timestamp outside the tick grid: %s' % e, step)
                 return status
         elif mode == 'fail':
             up_l = '(UFill %s)' % zlit(self.body_id(body) if status == 200 and pre is None else 1)
         else:
-            up_l = 'UErr' if mode == 'err' or pre is None else '(UOk 1 1 %s %s)' % (stamp_lit(float(now)), stamp_lit(float(now)))
+            up_l = 'UErr' if mode == 'err' or pre is None else '(UOk 1 None {| e_ts := %s; e_size := 1; e_body := 1 |})' % stamp_lit(float(now))
         inm_l = 'None' if inm is None else '(Some %s)' % codes(self.tab.src(inm))
         ev = 'Req %s %d %s %s %s' % (SVC_MODEL[svc], key, inm_l, ims_lit(ims), up_l)
         if status in (200, 304) and not weird:
@@ -818,7 +879,7 @@ def gen_ims(rng, pre_ts, validators):
     if c < 4:
         return None, 'absent', None
     if c < 10:
-        t = base + rng.choice([0, 0, 1, -1, 2, -2, 3600, -86400, 10 ** 8])
+        t = base + rng.choice([0, 0, 1, -1, 2, -2, 3600, -86400, 10 ** 8, -7200, -18000, 7200, 19800, -19800])
         if rng.random() < 0.08:
             t = rng.choice([1, 631152000, 946684799, 946684800, 1073741824])     # 1970, 1990, end of 1999, 2000, 2004
         if c == 9 and validators:
@@ -862,6 +923,10 @@ def run_script(ctx, hist, up, script):
             hist.do_rewrite(op['key'], sized_png(tuple(op.get('color', (1, 2, 3))), op.get('size')), Fraction(op['mtime']))
         elif op['op'] == 'remove':
             hist.do_remove(op['key'])
+        elif op['op'] == 'store':
+            hist.do_store(op['key'], tuple(op['color']))
+        elif op['op'] == 'sleep':
+            real_time.sleep(op['seconds'])
         else:
             key = op['key']
             inm = op.get('inm')
@@ -882,10 +947,10 @@ def run_script(ctx, hist, up, script):
             hist.do_request(op.get('svc', 'tms'), key, op.get('mode', 'ok'), inm, ims, cls, t, now)
 
 
-def run_history(ctx, cache_type, meta, hours, nsteps, up, clock, script=None):
+def run_history(ctx, cache_type, meta, hours, nsteps, up, clock, script=None, link=None, tz=None):
     rng = ctx.rng
-    label = '%s,meta=%d,max_age=%dh' % (cache_type, meta, hours)
-    app = App(ctx, cache_type, meta, hours)
+    label = '%s,meta=%d,max_age=%dh%s%s' % (cache_type, meta, hours, ',link=' + link if link else '', ',TZ=' + tz if tz else '')
+    app = App(ctx, cache_type, meta, hours, link)
     hist = History(ctx, app, up, clock, label)
     if script is not None:
         run_script(ctx, hist, up, script)
@@ -902,6 +967,12 @@ def run_history(ctx, cache_type, meta, hours, nsteps, up, clock, script=None):
         if last_key is not None and rng.random() < 0.5:
             key = last_key
         pre = hist.store[key]
+        if cache_type == 'file' and (link or rng.random() < 0.15) and c < 0.12:
+            # the backend itself writes the tile again, in one of a few colours (shared single-colour files get reused)
+            hist.do_store(key, rng.choice(colors[:3]))
+            ctx.count('app:event=store_tile')
+            last_key = key
+            continue
         if c < 0.14:
             up.color = rng.choice(colors)
             data = make_png(rng.choice(colors), rng.choice([0, 0, 1, 2, 9, 30, 300]))
@@ -937,7 +1008,7 @@ def run_history(ctx, cache_type, meta, hours, nsteps, up, clock, script=None):
         svc = rng.choice(SERVICES)
         mode = rng.choice(['ok', 'ok', 'ok', 'ok', 'fail', 'fail', 'err'])
         if mode == 'ok':
-            up.color = rng.choice(colors)
+            up.color = rng.choice(colors[:3] if link else colors)
         vals = hist.validators[key]
         k2 = rng.randrange(10)
         if k2 < 3:
@@ -968,6 +1039,66 @@ def run_history(ctx, cache_type, meta, hours, nsteps, up, clock, script=None):
     return hist
 
 
+class TimeZone:
+    """run a block with another process time zone (os.environ['TZ'] + time.tzset()), restored afterwards"""
+
+    def __init__(self, tz):
+        self.tz = tz
+
+    def __enter__(self):
+        self.saved = os.environ.get('TZ')
+        os.environ['TZ'] = self.tz
+        real_time.tzset()
+
+    def __exit__(self, *a):
+        if self.saved is None:
+            os.environ.pop('TZ', None)
+        else:
+            os.environ['TZ'] = self.saved
+        real_time.tzset()
+
+
+def run_tz_direct(ctx, tz):
+    """parse_httpdate / make_conditional directly, in the zone that is active now: an HTTP date names one instant"""
+    from mapproxy.util.times import parse_httpdate
+    from mapproxy.response import Response
+    rng = ctx.rng
+    terms, descr = [], []
+    for i in range(ctx.n(40, 400)):
+        t = rng.choice([T0, 1234567890, 1750000000, 1719800000, 1711846800, 1699167600]) + rng.randrange(-90000, 90000)
+        text = fmt_date(t, rng.choice(['rfc1123', 'rfc1123', 'rfc850', 'asctime']))
+        try:
+            got = parse_httpdate(text)
+        except Exception as e:  # noqa
+            got = 'raised ' + type(e).__name__
+        ctx.case(('tzdate', tz, text), True, None)
+        ctx.count('tz:' + tz)
+        if got != t:
+            ctx.fail('httpdate-not-gmt', 'TZ=%s: parse_httpdate(%r) = %r, the date names epoch second %d' % (tz, text, got, t),
+                     {'TZ': tz, 'text': text, 'parse_httpdate': got, 'expected': t})
+        terms.append('(%s, %s)' % (ims_lit(text), '(Some (PSome %s))' % zlit(got) if isinstance(got, int) else 'None'))
+        descr.append({'TZ': tz, 'text': text, 'parse_httpdate': got})
+        # a tile modified at ts, a client copy that is `delta` seconds older / newer
+        ts = t + rng.choice([0.0, 0.25, 0.5])
+        delta = rng.choice([-19800, -18000, -7200, -3600, -1, 0, 1, 3600, 18000, 19800])
+        ims = fmt_date(int(ts // 1) + delta)
+        r = Response(b'x', content_type='image/png')
+        try:
+            r.cache_headers(ts, etag_data=(ts, 5), max_age=60)
+            r.make_conditional(FakeReq({'HTTP_IF_MODIFIED_SINCE': ims}))
+            st = int(r.status.split()[0])
+        except Exception as e:  # noqa
+            st = 599
+        want = 304 if ts <= int(ts // 1) + delta else 200
+        if st != want:
+            ctx.fail('unsound-304' if st == 304 else 'ims-covers-not-304',
+                     'TZ=%s: content modified at %r, If-Modified-Since %r: answered %d, expected %d' % (tz, ts, ims, st, want),
+                     {'TZ': tz, 'timestamp': ts, 'if_modified_since': ims, 'status': st})
+    ctx.corr_check('httpdate_tz_' + tz.split('/')[1], 'Cond', 'imsval * option parsed', terms,
+                   "fun c => match snd c with Some p => parsed_eqb (parse_httpdate (fst c)) p | None => false end",
+                   lambda i: descr[i])
+
+
 CHECKER = ("fun c => let '(st, ev, extras, obs, st2) := c in "
            "let '(st1, o) := step (fun s => s) %d (Some %%d) st ev in "
            "let st1' := fold_left (fun s ke => update s (fst ke) (snd ke)) extras st1 in "
@@ -996,7 +1127,8 @@ def run_app_stream(ctx):
             if not fn.endswith('.json'):
                 continue
             c = json.load(open(os.path.join(cdir, fn)))
-            hist = run_history(ctx, c['cache'], c.get('meta', 1), c.get('hours', 72), 0, up, clock, script=c['script'])
+            hist = run_history(ctx, c['cache'], c.get('meta', 1), c.get('hours', 72), 0, up, clock, script=c['script'],
+                               link=c.get('link'))
             hist.label = 'corpus/' + fn
             ctx.count('app:corpus')
             ctx.corr_check('corpus_' + fn[:-5].replace('-', '_'), 'Cond',
@@ -1007,6 +1139,20 @@ def run_app_stream(ctx):
             ctx.corr_check('app_%s_meta%d_%dh' % (cache_type, meta, hours), 'Cond',
                            'store * event * list (Z * entry) * option outcome * store', hist.terms,
                            CHECKER % (hours * 3600), lambda i, h=hist: h.descr[i], shard=60)
+        # file caches with link_single_color_images (every tile of the synthetic upstream is uniform)
+        for link in ('symlink', 'hardlink'):
+            hist = run_history(ctx, 'file', 1, 72, ctx.n(70, 400), up, clock, link=link)
+            ctx.corr_check('app_file_%s' % link, 'Cond',
+                           'store * event * list (Z * entry) * option outcome * store', hist.terms,
+                           CHECKER % (72 * 3600), lambda i, h=hist: h.descr[i], shard=60)
+        # the same code in other time zones (HTTP dates are GMT whatever the zone of the process)
+        for tz in ('America/New_York', 'Asia/Kolkata'):
+            with TimeZone(tz):
+                run_tz_direct(ctx, tz)
+                hist = run_history(ctx, 'file', 1, 72, ctx.n(45, 300), up, clock, tz=tz)
+                ctx.corr_check('app_tz_%s' % tz.split('/')[1], 'Cond',
+                               'store * event * list (Z * entry) * option outcome * store', hist.terms,
+                               CHECKER % (72 * 3600), lambda i, h=hist: h.descr[i], shard=60)
     finally:
         H.HTTPClient.open, CB.time, CM.time = saved
         logging.disable(logging.NOTSET)
